@@ -124,6 +124,70 @@ func init() {
 			return fmt.Sprintf("%d;%d", enc[0], int(mac.DecodeOne(enc[0])))
 		}))
 	}
+	// real Encode -> real Read of an explicit glyph-name list
+	ops["names.postrtl"] = func(f Fields) string {
+		return nmCanon(guard(func() string {
+			info, err := post.Read(bytes.NewReader(nmPostInfo(f).Encode()))
+			if err != nil {
+				return "err"
+			}
+			return nmShowNames(info.Names)
+		}))
+	}
+	// one record per language id of the platform's table (hand-built table, not through Encode), each
+	// with its own string "id<ID>" under name id 1: which strings are still there after the real Decode?
+	ops["names.allids"] = func(f Fields) string {
+		return nmCanon(guard(func() string {
+			plat := f.Int("plat")
+			m := name.VerifAppleBCP()
+			if plat == 3 {
+				m = name.VerifMsBCP()
+			}
+			ids := nmSortedLangs(m)
+			var recs, storage []byte
+			for _, id := range ids {
+				str := []byte(fmt.Sprintf("id%d", id))
+				enc := 0
+				if plat == 3 {
+					enc = 1
+					var u []byte
+					for _, ch := range str {
+						u = append(u, 0, ch)
+					}
+					str = u
+				}
+				off := len(storage)
+				storage = append(storage, str...)
+				for _, w := range []int{plat, enc, id, 1, len(str), off} {
+					recs = append(recs, byte(w>>8), byte(w))
+				}
+			}
+			so := 6 + len(recs)
+			data := append([]byte{0, 0, byte(len(ids) >> 8), byte(len(ids)), byte(so >> 8), byte(so)}, recs...)
+			data = append(data, storage...)
+			info, err := name.Decode(data)
+			if err != nil {
+				return "err"
+			}
+			tt := info.Mac
+			if plat == 3 {
+				tt = info.Windows
+			}
+			var got []int
+			for _, t := range tt {
+				if t == nil {
+					continue
+				}
+				var id int
+				if _, err := fmt.Sscanf(t.VerifGet(1), "id%d", &id); err != nil {
+					return "bad-string:" + hx([]byte(t.VerifGet(1)))
+				}
+				got = append(got, id)
+			}
+			sort.Ints(got)
+			return fmt.Sprintf("%d;%s", len(got), ints(got))
+		}))
+	}
 	ops["names.macenc"] = func(f Fields) string {
 		return nmCanon(guard(func() string { return hx(mac.Encode(nmString(f, "r"))) }))
 	}
@@ -1288,6 +1352,10 @@ func nmNameTable(c *Ctx) {
 		nmNameCase(c, []nmEntry{{3, ms[uint16(l)], 4, "Full " + string(nmRandRune(r, 2)) + string(nmRandRune(r, 3))}}, 1, "each-windows-language")
 	}
 	nmNameCase(c, nil, 1, "empty")
+	// every language id of each platform in one hand-built table: nothing may be lost on Decode
+	c.Case(Direct, "names.allids", "plat=1", true)
+	c.Case(Direct, "names.allids", "plat=3", true)
+	c.Stat("name_class", "all-language-ids")
 	// boundary strings in records (every run): each special code point alone / first / middle / last,
 	// on both platforms, also shared between records
 	for i, s := range nmBoundaryStrings(nmSpecials, []rune("Ab\u00e9\u4e2d")) {
@@ -1513,6 +1581,10 @@ func nmPostCase(c *Ctx, names []string, class string, inDomain bool) {
 	}
 	// the real reader on the real encoder's bytes (verdict: model reader = Go reader)
 	c.Case(Verdict, "names.postread", "b="+out, len(names) > 0)
+	if inDomain && len(out) < 60000 {
+		// direct: the real Read must return the list the real Encode was given
+		c.Case(Direct, "names.postrtl", args, len(names) > 0)
+	}
 	if inDomain {
 		// direct: independent Lean reader must see the names that were written
 		c.Case(Direct, "names.postspec", "b="+out+" want="+nmShowNames(names), len(names) > 0)
@@ -1589,6 +1661,32 @@ func nmPost(c *Ctx) {
 			class = "mixed"
 		}
 		nmPostCase(c, names, class, true)
+	}
+	// repeated non-standard names: adjacent, with another non-standard name introduced in between,
+	// three-way, mixed with standard names and with names repeated before/after their first use
+	for _, names := range [][]string{
+		{".notdef", "alpha.alt", "alpha.alt"},
+		{".notdef", "alpha.alt", "beta.alt", "alpha.alt"},
+		{"alpha.alt", "beta.alt", "alpha.alt", "beta.alt"},
+		{"alpha.alt", "beta.alt", "gamma.alt", "alpha.alt", "beta.alt", "gamma.alt"},
+		{"a1", "a2", "a3", "a1", "a1", "a3", "a2"},
+		{"space", "x.sc", "A", "y.sc", "x.sc", "B", "y.sc", "space", "z.sc", "x.sc"},
+		{"q", "q", "q"},
+		{"u1", "u2", "u3", "u4", "u5", "u1", "u5", "u2", "u4", "u3"},
+	} {
+		nmPostCase(c, names, "repeated-custom", true)
+	}
+	for i := 0; i < c.N/50; i++ {
+		pool := []string{nmRandGlyphName(r), nmRandGlyphName(r), nmRandGlyphName(r), nmRandGlyphName(r)}
+		var names []string
+		for k := r.Range(3, 14); k > 0; k-- {
+			if r.Chance(1, 4) {
+				names = append(names, Pick(r, std))
+			} else {
+				names = append(names, Pick(r, pool))
+			}
+		}
+		nmPostCase(c, names, "repeated-custom-random", true)
 	}
 	// outside the stated domain: a name of more than 255 bytes (verdict only)
 	for i := 0; i < 3; i++ {
